@@ -229,9 +229,16 @@ MB = ["\u00e9", "\u0436", "\u20ac", "\u4f50", "\U0001d51e"]
 
 def rand_scenario(rng):
     """small multi-step situations that random key mixing rarely produces"""
-    r = rng.randrange(6)
+    r = rng.randrange(7)
     ops = []
-    if r == 0:
+    if r == 6:
+        # the second time: the same line twice in a row, again after an error line, after a help request, after a prompt-changing command,
+        # after a line that filled the buffer; Tab twice; Up after every one of them
+        l = rng.choice([b"echo a b", b"ln x", b"mid y", b"nl", "echo \u00e9".encode("utf-8"), b'echo "a b" -v --x', b"quiet", b"fmt 1"])
+        between = rng.choice([[], ["b:" + hx(b"nosuch -x"), "b:0d"], ["b:" + hx(b"help"), "b:0d"], ["b:" + hx(b"prompt b"), "b:0d"],
+                              ["b:" + hx(b"x" * 70), "b:0d"], ["b:" + hx(b"he"), "b:09", "b:09", "b:0d"], ["b:" + hx(b"do sa x"), "b:0d"]])
+        ops += ["b:" + hx(l), "b:0d"] + between + ["b:" + hx(l), rng.choice(["b:0d", "b:0d0a"]), "b:" + hx(KEYS["up"]), "b:" + hx(KEYS["up"]), "b:0d"]
+    elif r == 0:
         # Tab after a (partial) command word followed by blanks, with the cursor moved back among the blanks or into the word
         w = rng.choice([b"he", b"hel", b"help", b"h", b"ec", b"x"])
         tail = b" " * rng.choice([0, 1, 2, 3])
@@ -241,6 +248,9 @@ def rand_scenario(rng):
         ops.append("b:" + hx(w + tail))
         ops += ["b:" + hx(KEYS["left"])] * rng.choice([0, 1, 1, 2, 3])
         ops.append("b:09")
+        if rng.randrange(3) == 0:
+            # a second Tab after nothing but cursor moves (the request changes with the cursor: blanks right of it do not count)
+            ops += ["b:" + hx(KEYS[rng.choice(["left", "left", "right"])])] * rng.choice([1, 2]) + ["b:09"]
         if rng.randrange(2): ops.append("b:" + hx(rng.choice([b"x", b" y", b""])))
         ops.append("b:0d")
     elif r == 1:
